@@ -9,6 +9,7 @@ import (
 	"go/types"
 	"regexp"
 	"strings"
+	"time"
 
 	"golang.org/x/tools/go/ssa"
 )
@@ -108,6 +109,7 @@ type Exec struct {
 	guard                *Term
 	spec                 int
 	rawInit              bool
+	pathDeadline         time.Time
 	regexps              map[*Loc]*regexp.Regexp
 	noMerge              bool
 	specBudget           int
@@ -935,6 +937,9 @@ func (ex *Exec) run(fr *Frame) Value {
 				if ex.specBudget < 0 {
 					abortMerge()
 				}
+			}
+			if ex.steps&1023 == 0 && !ex.pathDeadline.IsZero() && time.Now().After(ex.pathDeadline) {
+				ex.end("timeout", "path exceeded its wall-clock allowance in %s", fr.fn)
 			}
 			if ex.steps > ex.stepLimit {
 				ex.end("steplimit", "step limit %d exceeded in %s", ex.stepLimit, fr.fn)
